@@ -86,6 +86,60 @@ pub fn check_prefilled(case: &CodecCase) -> CaseResult {
     Ok(Outcome::new(plain.len() >= 252 || !pre.is_empty()).label_if(!pre.is_empty(), "bytes_before_the_placeholder"))
 }
 
+/// The input block is read once into an arena which then also backs the encoder's output
+/// (`Encoder::new_from_iovec(OwningIovec::new_from_arena(arena))`); the pieces encoded are
+/// borrowed *windows* of that block - in any order, overlapping, the same one twice - so the
+/// encoder is handed slices that live in its own arena's current chunk.
+pub fn check_own_arena_views(case: &CodecCase) -> CaseResult {
+    use hcobs::{Decoder, Encoder};
+    use owning_iovec::{ByteArena, OwningIovec};
+    let block = case.payload.bytes();
+    if block.is_empty() {
+        return Ok(Outcome::new(false));
+    }
+    let mut arena = ByteArena::new();
+    let mut src = &block[..];
+    let input = arena
+        .read_n(&mut src, block.len(), std::num::NonZeroUsize::new(3).unwrap())
+        .map_err(|e| Fail::new("read_n:error", e.to_string()))?;
+    // Windows from the two feeding plans' cut points: [c0, c2), [c1, c3), ... (overlapping), then the whole block again.
+    let mut cuts = crate::engine::bytespec::resolve_cuts(&case.enc.cuts, block.len(), &codec::plain_interesting(&block));
+    cuts.extend(crate::engine::bytespec::resolve_cuts(&case.dec.cuts, block.len(), &[]));
+    cuts.push(0);
+    cuts.push(block.len());
+    cuts.sort_unstable();
+    cuts.dedup();
+    let mut windows: Vec<(usize, usize)> = cuts.windows(3).map(|w| (w[0], w[2])).collect();
+    if case.pre.0.len() % 2 == 0 {
+        windows.reverse();
+    }
+    windows.push((0, block.len()));
+    windows.truncate(8);
+    let mut plain = vec![];
+    let mut encoder = Encoder::new_from_iovec(OwningIovec::new_from_arena(arena));
+    if !case.pre.0.is_empty() {
+        encoder.encode_copy(&case.pre.0);
+        plain.extend_from_slice(&case.pre.0);
+    }
+    for (a, b) in &windows {
+        encoder.encode(&input.slice()[*a..*b]);
+        plain.extend_from_slice(&block[*a..*b]);
+    }
+    let got = encoder.finish().flatten().map_err(|_| Fail::new("own-arena:pending", "placeholder pending after finish".to_string()))?;
+    let want = hcobs_ref::encode(&plain, LIMIT_FIRST, LIMIT_LATER);
+    if got != want {
+        return Err(Fail::new("own-arena:encoder", codec::mismatch(&format!("encoder fed {} windows {windows:?} of a block living in its own arena", windows.len()), &got, &want)));
+    }
+    let mut decoder = Decoder::new();
+    decoder.decode_copy(&got).map_err(|e| Fail::new("own-arena:decoder", e.to_string()))?;
+    let back = decoder.finish().map_err(|e| Fail::new("own-arena:decoder", e.to_string()))?.flatten().unwrap_or_default();
+    if back != plain {
+        return Err(Fail::new("own-arena:roundtrip", codec::mismatch("decoding the encoder's output", &back, &plain)));
+    }
+    drop(input);
+    Ok(Outcome::new(windows.len() >= 3).label_if(windows.iter().any(|w| w.1 - w.0 > 64), "window>64"))
+}
+
 #[derive(Clone, Debug, PartialEq, Eq, Hash, Serialize, Deserialize)]
 pub enum Mutation {
     /// Overwrite byte `byte` (0 or 1) of the `which`-th chunk header.
@@ -301,6 +355,8 @@ pub fn run(ctx: &Ctx, rep: &mut Report) {
     engine::drive(ctx, rep, "encoder-power-of-two-aligned", codec::aligned_case(), cases, check_encoder);
     let cases = ctx.share(ctx.tier.pick(8_000, 200_000));
     engine::drive(ctx, rep, "prefilled-iovec-with-placeholder", codec::codec_case(false), cases, check_prefilled);
+    let cases = ctx.share(ctx.tier.pick(8_000, 200_000));
+    engine::drive(ctx, rep, "views-of-a-block-in-its-own-arena", codec::codec_case(false), cases, check_own_arena_views);
     let cases = ctx.share(ctx.tier.pick(80_000, 600_000));
     engine::drive(ctx, rep, "decoder", dec_case(false), cases, check_decoder);
     let cases = ctx.share(ctx.tier.pick(4_000, 40_000));
@@ -312,6 +368,7 @@ fn replay(_ctx: &Ctx, group: &str, case: &Value) -> CaseResult {
         "small-scope-encoder" => hcobs_small::check_small_enc(&parse_case::<SmallEnc>(case)?, Focus::Canonical),
         "small-scope-decoder" => hcobs_small::check_small_dec(&parse_case::<SmallDec>(case)?),
         "prefilled-iovec-with-placeholder" => check_prefilled(&parse_case::<CodecCase>(case)?),
+        "views-of-a-block-in-its-own-arena" => check_own_arena_views(&parse_case::<CodecCase>(case)?),
         g if g.starts_with("encoder") => check_encoder(&parse_case::<CodecCase>(case)?),
         _ => check_decoder(&parse_case::<DecCase>(case)?),
     }
@@ -320,7 +377,7 @@ fn replay(_ctx: &Ctx, group: &str, case: &Value) -> CaseResult {
 pub fn def() -> PropDef {
     PropDef {
         id: "C07",
-        rule: "Encoder groups: C01's case type; oracle: output equals byte for byte an independently written reference encoder (limits 252/64008 and radix 253 are literals in the reference). encoder-power-of-two-aligned: C02's aligned payloads. prefilled-iovec-with-placeholder: both codecs are started with new_from_iovec on an iovec that holds a few bytes and one of the caller's own placeholders, still pending; pieces go in by encode / encode_copy (decode / decode_copy), finish hands the iovec back, the caller backfills, and the whole must be prefix ++ fill ++ reference output. Decoder groups: a case is (optional payload whose canonical encoding is the starting string, a list of mutations - overwrite a chunk-header byte with 253..255 / near-limit / small values, set/delete/insert bytes, truncate, append an extra chunk - or a short arbitrary string, and a feeding plan with cuts and input methods); oracle: accept/reject verdict and decoded bytes equal the reference decoder's, no panic. truncate-every-position enumerates every truncation of the encodings of boundary-length payloads. Non-trivial: the string has >= 2 chunks (reaches a two-byte header), or is rejected for a reason other than being empty. Distinct: hash of the serialised case / by enumeration. Small-scope groups: all strings over {FE,FD,00} up to max_len x 4 limit pairs x cuts x methods (encoder), all strings over {00,01,02,03,05,FC,FD,FE} up to max_len with limits 3/5 x cuts x methods (decoder), through the hcobs::verif hook.",
+        rule: "Encoder groups: C01's case type; oracle: output equals byte for byte an independently written reference encoder (limits 252/64008 and radix 253 are literals in the reference). encoder-power-of-two-aligned: C02's aligned payloads. prefilled-iovec-with-placeholder: both codecs are started with new_from_iovec on an iovec that holds a few bytes and one of the caller's own placeholders, still pending; pieces go in by encode / encode_copy (decode / decode_copy), finish hands the iovec back, the caller backfills, and the whole must be prefix ++ fill ++ reference output. views-of-a-block-in-its-own-arena: the payload is read once into an arena that then backs the encoder (new_from_iovec(new_from_arena(arena))); up to eight borrowed windows of that block - overlapping, in either order, the whole block again - are encoded, and the output must be the reference encoding of their concatenation. Decoder groups: a case is (optional payload whose canonical encoding is the starting string, a list of mutations - overwrite a chunk-header byte with 253..255 / near-limit / small values, set/delete/insert bytes, truncate, append an extra chunk - or a short arbitrary string, and a feeding plan with cuts and input methods); oracle: accept/reject verdict and decoded bytes equal the reference decoder's, no panic. truncate-every-position enumerates every truncation of the encodings of boundary-length payloads. Non-trivial: the string has >= 2 chunks (reaches a two-byte header), or is rejected for a reason other than being empty. Distinct: hash of the serialised case / by enumeration. Small-scope groups: all strings over {FE,FD,00} up to max_len x 4 limit pairs x cuts x methods (encoder), all strings over {00,01,02,03,05,FC,FD,FE} up to max_len with limits 3/5 x cuts x methods (decoder), through the hcobs::verif hook.",
         assumptions: &[
             "the reference codec (refimpl/hcobs_ref.rs) is correct; it is validated against the expected pairs quoted from the crate's unit tests (cargo test in /verif/harness)",
             "decoders are not fed after their first error",
